@@ -1,8 +1,74 @@
 //! Real descriptors for the descriptor-passing checks: pipes whose write ends are handed to the
 //! library; identity is judged by inode, closure by EOF on the read end.
 
+use std::cell::Cell;
 use std::os::unix::io::RawFd;
+use std::sync::atomic::{AtomicUsize, Ordering};
 use std::sync::RwLock;
+
+// Descriptors that are handed to the library get their NUMBERS from a range that belongs to the
+// executing thread alone (lowest free number at or above the thread's base). Lowest-free allocation
+// is process-wide, so without this the numbers - and with them the behaviour of a library that
+// (wrongly) depends on descriptor numbers - would depend on what other worker threads do, and such
+// a violation would not replay. With it the numbers are a function of the run alone, up to a
+// constant offset (the base differs between threads; order relations are preserved).
+thread_local! {
+    static REGION_BASE: Cell<RawFd> = const { Cell::new(-1) };
+}
+static NEXT_REGION: AtomicUsize = AtomicUsize::new(0);
+const REGIONS: usize = 16;
+
+fn region_base() -> RawFd {
+    REGION_BASE.with(|b| {
+        if b.get() < 0 {
+            // SAFETY: plain getrlimit.
+            let limit = unsafe {
+                let mut rl: libc::rlimit = std::mem::zeroed();
+                if libc::getrlimit(libc::RLIMIT_NOFILE, &mut rl) == 0 {
+                    rl.rlim_cur as i64
+                } else {
+                    1024
+                }
+            };
+            let k = NEXT_REGION.fetch_add(1, Ordering::Relaxed) % REGIONS;
+            // the first 1000 numbers are left to everything else in the process
+            let span = ((limit - 1000).max(0) / REGIONS as i64) as RawFd;
+            b.set(if span >= 600 { 1000 + span * k as RawFd } else { 0 });
+        }
+        b.get()
+    })
+}
+
+/// Move a descriptor to the lowest free number of the calling thread's range (the original
+/// number is closed). If the process limit leaves no room for ranges the descriptor is returned
+/// unchanged.
+pub fn into_region(fd: RawFd) -> RawFd {
+    let base = region_base();
+    if base <= 0 || fd < 0 {
+        return fd;
+    }
+    // SAFETY: plain fcntl/close on a descriptor we own.
+    unsafe {
+        let n = libc::fcntl(fd, libc::F_DUPFD_CLOEXEC, base);
+        if n >= 0 {
+            libc::close(fd);
+            n
+        } else {
+            fd
+        }
+    }
+}
+
+/// a descriptor that only occupies a number in the calling thread's range
+pub fn open_placeholder() -> Option<RawFd> {
+    // SAFETY: plain open of /dev/null.
+    let fd = unsafe { libc::open(b"/dev/null\0".as_ptr() as *const libc::c_char, libc::O_RDONLY | libc::O_CLOEXEC) };
+    if fd < 0 {
+        None
+    } else {
+        Some(into_region(fd))
+    }
+}
 
 /// Runs that hand descriptor NUMBER 0 to the library need the process-wide descriptor table for
 /// themselves (lowest-free allocation is global): they take this lock exclusively, all other
